@@ -31,6 +31,9 @@ def isPrivMap : GoVal → Bool
 /-- no entry holds the renderer's counter map -/
 def NoPriv (kvs : List (GoVal × GoVal)) : Prop := ∀ kv ∈ kvs, isPrivMap kv.2 = false
 
+/-- no field holds the renderer's counter map -/
+def NoPrivF (fs : List (Bytes × GoVal)) : Prop := ∀ f ∈ fs, isPrivMap f.2 = false
+
 mutual
 inductive MP : GoVal → GoVal → Prop
   | refl (v : GoVal) : MP v v
@@ -41,7 +44,7 @@ inductive MP : GoVal → GoVal → Prop
   | mapVals (kt vt : Ty) {kvs kvs' : List (GoVal × GoVal)} : vt ≠ .priv → NoPriv kvs →
       MPV kvs kvs' → MP (.map kt vt kvs) (.map kt vt kvs')
   | mapSlice {kvs kvs' : List (GoVal × GoVal)} : MPV kvs kvs' → MP (.mapSlice kvs) (.mapSlice kvs')
-  | keyedMap {fs fs' : List (Bytes × GoVal)} : MPF fs fs' → MP (.keyedMap fs) (.keyedMap fs')
+  | keyedMap {fs fs' : List (Bytes × GoVal)} : NoPrivF fs → MPF fs fs' → MP (.keyedMap fs) (.keyedMap fs')
   | struct {fs fs' : List (Bytes × GoVal)} : MPF fs fs' → MP (.struct fs) (.struct fs')
   | ptr {v w : GoVal} : MP v w → MP (.ptr v) (.ptr w)
   | drop {v w : GoVal} : MP v w → MP (.drop v) (.drop w)
